@@ -302,11 +302,10 @@ func c05r2(c *RC) {
 				if !ok || f.Pos() < call.Pos() || f.Cond == nil {
 					return true
 				}
-				be, ok := ast.Unparen(f.Cond).(*ast.BinaryExpr)
-				if !ok || be.Op != token.LSS || expr(be.Y) != nvar {
+				iv, bound, ok := loopUpTo(fn, f)
+				if !ok || expr(bound) != nvar {
 					return true
 				}
-				iv := expr(be.X)
 				ast.Inspect(f.Body, func(k ast.Node) bool {
 					if ix, ok := k.(*ast.IndexExpr); ok && expr(ix.X) == shards && expr(ix.Index) == iv {
 						okPlace = true
